@@ -705,6 +705,7 @@ class _QuotQ(Decimal):
         self.den = None
         self.lazy = None
         self.nr = 0
+        self.eb = None
         self.n = None
         self.k = k
         # value*10^k = n*10^k / (d*10^kk)
